@@ -724,7 +724,15 @@ func (e *SpecEnv) evalCall(n *ast.CallExpr) Val {
 		if x.t == nil || y.t == nil || x.t.sort != SLoc || y.t.sort != SSlice {
 			specFail("apart(pointer, slice) expected")
 		}
-		return Val{t: b.Not(b.And(b.mk("(_ is Elem)", SBool, x.t), b.Eq(b.App("ebase", SLoc, x.t), w.sbase(y.t)))), typ: boolT}
+		under := func(l *Term) *Term {
+			return b.And(b.mk("(_ is Elem)", SBool, l), b.Eq(b.App("ebase", SLoc, l), w.sbase(y.t)))
+		}
+		isFld := func(l *Term) *Term { return b.mk("(_ is Fld)", SBool, l) }
+		fb := b.App("fbase", SLoc, x.t)
+		fbb := b.App("fbase", SLoc, fb)
+		// neither the memory itself nor (a field of) a struct view laid over it - the same two levels of views a
+		// modifies entry elems(byteSlice) covers
+		return Val{t: b.Not(b.Or(under(x.t), b.And(isFld(x.t), under(fb)), b.And(isFld(x.t), isFld(fb), under(fbb)))), typ: boolT}
 	case "setEmpty":
 		argn(0)
 		return Val{t: b.ConstArray(SArray(SBV(64), SBool), b.False()), typ: pageSetType}
